@@ -29,7 +29,7 @@ from irispie.series import _ell_one as L1MOD
 from .common import Ctx, err_kind, rat_of_float, VERIF
 
 DRIVERS = ["C14"]
-EXTRA_PROPS = ['BridgeC14']   # refinement bridge from the executable QMat model to the matrix-level theorems (audited with this check)
+EXTRA_PROPS = ['BridgeC14', 'C14Span', 'QMatSolveBridge', 'GenTieCore', 'GenTieC14']   # refinement bridge from the executable QMat model to the matrix-level theorems (audited with this check)
 LEVEL = "proof"
 MANIFEST = {
     "category": "proof",
@@ -51,7 +51,17 @@ MANIFEST = {
              "the lonf difference matrices exactly; trend/gap at 1e-6 relative on instances with numpy-measured cond <= 1e8) and by "
              "exact-arithmetic certificates evaluated on the implementation's own output (normal-equation residual; for lonf the dual "
              "certificate), plus an independent oracle (perturbation test of the exact objective, least-squares reference, constraints, "
-             "straight lines, spans, variants, log, missing observations). PARTIAL: lonf is certificate validation only (daqp's active-set "
+             "straight lines, spans, variants, log, missing observations). SPANS AND STATE (Model/HPSpan.lean, Props/C14Span.lean): the span "
+             "argument in the form it is given (.../None, Span with open ends, any step, either direction, any iterable in any order) is "
+             "reduced to (min, max) of the requested periods (hullOf_spec; order, repetition, direction irrelevant: hullOf_congr, "
+             "hull_backward_eq_forward); the filter span is the hull of data, constraints and requested periods (encompassing_is_hull, "
+             "filter_span_contains_request); the output is dated from the minimum and is the slice [min-lo : max-lo+1] of the unclipped "
+             "result with exactly max-min+1 periods (dataHpfReq_restriction, dataHpf_output_length); filter_data leaves the filter object "
+             "unchanged, so the variant loop is a map of the stateless filter (run_is_map, run_variant_local). CONVERSE: dependent "
+             "constraints make F singular; non-singular <=> distinct levels, distinct changes, no level-changes-level cycle "
+             "(hp_nonsingular_iff_independent). Streams added: hpfq (span forms), obj (self._F before/after the variant loop, exact), "
+             "malformed (empty selection); history oracle (first cases re-run at the end after a call with another lambda: bitwise equal). "
+             "PARTIAL: lonf is certificate validation only (daqp's active-set "
              "iteration is not modelled); floating point and LAPACK are outside the theorems; completeness of QMat.solve (that Gauss-Jordan "
              "finds the solution which is proved to exist) is not proved - the model re-checks every answer exactly instead."),
     "design": "7/C14",
@@ -106,17 +116,57 @@ def objects(case):
     return x, lev, chg
 
 
+def own_span(case, span):
+    return span is not None and case.get("span") is not None and tuple(case["span"]) == tuple(span)
+
+
 def span_arg(case, span):
+    """the `span=` argument; the case's own span is given in the form the case prescribes (forward/backward/stepped Span, open
+    ends, shuffled list, tuple), whose smallest and largest period are `span` by construction of the generator"""
     f = case["freq"]
     if span is None:
-        return ...
+        return ... if case.get("span_none", "dots") == "dots" else None
     lo, hi = span
-    form = case.get("span_form", "span")
+    form = case.get("span_form", "span") if own_span(case, span) else "span"
     if form == "list":
-        return [P(f, hi), P(f, lo)] if hi != lo else [P(f, lo)]
+        return [P(f, q) for q in case.get("span_list") or ([hi, lo] if hi != lo else [lo])]
     if form == "tuple_all":
-        return tuple(P(f, s) for s in range(lo, hi + 1))
+        return tuple(P(f, q) for q in range(lo, hi + 1))
+    if form == "bwd":
+        return ir.Span(P(f, hi), P(f, lo), -1)
+    if form == "step":
+        return ir.Span(P(f, lo), P(f, case["span_nominal"]), case["span_step"])
+    if form == "bwd_step":
+        return ir.Span(P(f, hi), P(f, case["span_nominal"]), -case["span_step"])
+    if form == "open_start":
+        return ir.Span(None, P(f, hi))
+    if form == "open_end":
+        return ir.Span(P(f, lo), None)
     return ir.Span(P(f, lo), P(f, hi))
+
+
+def spanreq_words(case, span):
+    """the same argument for the model's `hpfq`: the form, not the hull"""
+    if span is None:
+        return ["dots"]
+    lo, hi = span
+    form = case.get("span_form", "span") if own_span(case, span) else "span"
+    if form == "list":
+        l = case.get("span_list") or ([hi, lo] if hi != lo else [lo])
+        return ["list", str(len(l))] + [str(q) for q in l]
+    if form == "tuple_all":
+        return ["list", str(hi - lo + 1)] + [str(q) for q in range(lo, hi + 1)]
+    if form == "bwd":
+        return ["range", str(hi), str(lo), "-1"]
+    if form == "step":
+        return ["range", str(lo), str(case["span_nominal"]), str(case["span_step"])]
+    if form == "bwd_step":
+        return ["range", str(hi), str(case["span_nominal"]), str(-case["span_step"])]
+    if form == "open_start":
+        return ["range", "-", str(hi), "1"]
+    if form == "open_end":
+        return ["range", str(lo), "-", "1"]
+    return ["range", str(lo), str(hi), "1"]
 
 
 def call_hpf(case, x, lev, chg, span, log=None, which="hpf"):
@@ -430,7 +480,33 @@ def gen_hpf_case(rng, quick=True):
         a = rng.randint(dlo - 2, dhi + 2)
         case["span"] = [a, a]
     if case["span"] is not None:
-        case["span_form"] = rng.weighted([("span", 5), ("list", 1), ("tuple_all", 1)])
+        lo, hi = case["span"]
+        forms = [("span", 4), ("bwd", 2), ("step", 2), ("bwd_step", 2), ("list", 2), ("tuple_all", 1)]
+        if lo == dlo:
+            forms.append(("open_start", 2))
+        if hi == dhi:
+            forms.append(("open_end", 2))
+        form = rng.weighted(forms)
+        if form in ("step", "bwd_step"):
+            k = rng.choice([2, 3, 5])
+            m = (hi - lo) // k
+            case["span_step"] = k
+            if form == "step":       # lo, lo+k, ... : the nominal end `hi` need not be reached
+                case["span_nominal"] = hi
+                case["span"] = [lo, lo + k * m]
+            else:                    # hi, hi-k, ... down to the nominal end `lo`
+                case["span_nominal"] = lo
+                case["span"] = [hi - k * m, hi]
+        elif form == "list":
+            inner = [q for q in range(lo + 1, hi) if rng.chance(0.4)]
+            l = [lo, hi] + inner + ([rng.choice([lo, hi])] if rng.chance(0.3) else [])
+            if lo == hi:
+                l = [lo]
+            rng.shuffle(l)
+            case["span_list"] = l
+        case["span_form"] = form
+    else:
+        case["span_none"] = rng.choice(["dots", "none"])
     case["span_kind"] = sp
     return case
 
@@ -689,7 +765,9 @@ def run_hpf_case(ctx: Ctx, case, rng, collect):
         wwide = req_words(case, x, lev, chg, wide, log)
         LTs = np.log(T) if log else T
         LGs = np.log(G) if log else G
-        collect.append(("hpf", "hpf " + " ".join(words), {"start": slo, "T": LTs, "G": LGs, "scale": sc}, case))
+        qwords = [words[0]] + spanreq_words(case, span) + words[3:]
+        collect.append(("hpf", "hpfq " + " ".join(qwords), {"start": slo, "T": LTs, "G": LGs, "scale": sc}, case))
+        ctx.count(f"hpf:span_form={case.get('span_form') if span is not None else case.get('span_none', 'dots')}")
         tau_words = []
         for k in range(nv):
             tau_words += [rat_of_float(v) for v in LT[:, k]]
@@ -701,6 +779,25 @@ def run_hpf_case(ctx: Ctx, case, rng, collect):
         mask = ["0" if v != v else "1" for v in YW[:, 0]]
         collect.append(("sys", f"sys {n} {case['lam']} {len(ilw)} {' '.join(str(int(v)) for v in ilw)} {len(icw)} "
                         f"{' '.join(str(int(v)) for v in icw)} {' '.join(mask)}".replace("  ", " "), mat_text(Fm), case))
+        # the filter object across the variant loop: self._F before and after filter_data on every variant (in order)
+        impl_ld, _ = HPMOD._prepare_constraints(lev, fu)
+        impl_cd, impl_cw0 = HPMOD._prepare_constraints(chg, fu)
+        impl_cd, _ = HPMOD._remove_first_date_change(impl_cd, impl_cw0)
+        hp2 = HPMOD._ConstrainedHodrickPrescottFilter(n, lam, level_where=list(ilw) or None, change_where=list(icw) or None, log=log)
+        before = mat_text(np.array(hp2._F, dtype=float))
+        answered = 0
+        for k in range(nv):
+            try:
+                hp2.filter_data(YW[:, k].copy(), level_data=impl_ld, change_data=impl_cd)
+                answered += 1
+            except Exception:
+                pass
+        after = mat_text(np.array(hp2._F, dtype=float))
+        collect.append(("obj", "obj " + " ".join(wwide), f"before {before} after {after} answered {answered}", case))
+    # ---- history: the first cases of a run are kept and run again at the end (output must be a pure function of the arguments)
+    hist = ctx.extra.setdefault("_history", [])
+    if len(hist) < 8 and collect is not None:
+        hist.append(("hpf", case, T.copy(), G.copy()))
     # ---- distribution
     ctx.count(f"hpf:freq={f}")
     ctx.count(f"hpf:lam={case['lam']}")
@@ -825,6 +922,9 @@ def run_lonf_case(ctx: Ctx, case, rng, collect):
         ctx.count(f"lonf:kinks={'0' if nk == 0 else '1-3' if nk <= 3 else '4+'}")
         if nk > 0 and nk < n - order:
             ctx.nontriv(("lonf", f, order, str(case["lam"]), n, nk, k))
+    hist = ctx.extra.setdefault("_history", [])
+    if sum(1 for h in hist if h[0] == "lonf") < 6 and collect is not None:
+        hist.append(("lonf", case, T.copy(), G.copy()))
     ctx.count(f"lonf:order={order}")
     ctx.count(f"lonf:lam={case['lam']}")
     ctx.count(f"lonf:variants={Y.shape[1]}")
@@ -845,7 +945,7 @@ def compare_with_model(ctx: Ctx, collect):
     for (stream, line, want, case), rep in zip(collect, replies):
         ctx.streams_compared[stream] = ctx.streams_compared.get(stream, 0) + 1
         short = {"case": case, "request": line[:400]}
-        if stream in ("setup", "sys", "dmat"):
+        if stream in ("setup", "sys", "dmat", "obj", "malformed"):
             if rep != want:
                 ctx.disagree(stream, short, want[:600], rep[:600])
         elif stream == "hpf":
@@ -955,6 +1055,60 @@ def generate(ctx: Ctx, n_hpf, n_line, n_lonf, collect):
             ctx.sample(case, limit=6)
 
 
+def history_check(ctx: Ctx):
+    """output is a pure function of (data, lambda, constraints, span): the kept cases are run again after everything else of
+    this run (hundreds of calls with other sizes and smoothing parameters), each preceded by the same call with another
+    smoothing parameter; the result must be bitwise what it was the first time"""
+    for kind, case, T0, G0 in ctx.extra.pop("_history", []):
+        ctx.evaluations += 1
+        try:
+            if kind == "hpf":
+                f = case["freq"]
+                x, lev, chg = objects(case)
+                span = tuple(case["span"]) if case.get("span") else None
+                slo, shi, _, _ = ranges(case, x, lev, chg, span)
+                other = dict(case, lam=(100 if str(case["lam"]) != "100" else 1600))
+                call_hpf(other, x, lev, chg, span)
+                t, g = call_hpf(case, x, lev, chg, span)
+                T1, G1 = grid(t, f, slo, shi), grid(g, f, slo, shi)
+            else:
+                f, order = case["freq"], case["order"]
+                x = make_series(f, case["dstart"], case["data"])
+                span = tuple(case["span"]) if case.get("span") else None
+                lo, hi = span if span else (x.start.serial, x.start.serial + x.data.shape[0] - 1)
+                sp = ir.Span(P(f, lo), P(f, hi)) if span else None
+                ir.lonf(x, order, lam_float(case["lam"]) * 2 + 1, span=sp)
+                t, g = ir.lonf(x, order, lam_float(case["lam"]), span=sp)
+                T1, G1 = grid(t, f, lo, hi), grid(g, f, lo, hi)
+            same = T1.shape == T0.shape and np.array_equal(T1, T0, equal_nan=True) and np.array_equal(G1, G0, equal_nan=True)
+        except Exception as e:
+            ctx.fail(f"{kind}-history-dependent", case, "second run of the same call raises " + repr(e))
+            continue
+        if not same:
+            ctx.fail(f"{kind}-history-dependent", case, "the same call gives a different result after other calls (other sizes / smoothing parameters) have been made")
+        ctx.count(f"history:{kind} re-runs")
+
+
+def malformed_cases(ctx: Ctx, collect):
+    """requests the code rejects: an empty selection of periods (the model answers `err:bad`)"""
+    if collect is None:
+        return
+    rng = ctx.rng.fork("malformed")
+    for i in range(4):
+        n = rng.randint(3, 9)
+        case = {"kind": "hpf", "freq": "Q", "lam": 100, "log": False, "dstart": 8080 + i, "data": [[rng.randint(-9, 9) for _ in range(n)]],
+                "level": None, "change": None, "span": None, "span_form": "span", "span_kind": "empty"}
+        x, lev, chg = objects(case)
+        try:
+            ir.hpf(x, smooth=100.0, span=[] if i % 2 else ())
+            got = "returned"
+        except Exception as e:
+            got = err_kind(e)
+        words = req_words(case, x, lev, chg, None, False)
+        collect.append(("malformed", "hpfq " + " ".join([words[0], "list", "0"] + words[3:]), got, case))
+        ctx.evaluations += 1
+
+
 def run(ctx: Ctx):
     ctx.rule = ("hpf: random integer series (n 3..40, 6 frequencies, 1-2 variants, interior and edge NaN), lambda in {1,100,1600,14400} "
                 "(80%) or {1/2,25/4,10,400,129600}, 0-3 level and 0-3 change constraints inside/outside the data, spans none/inside/"
@@ -969,6 +1123,8 @@ def run(ctx: Ctx):
         run_case(ctx, case, ctx.rng.fork("corpus"), collect)
         ctx.count("corpus cases")
     generate(ctx, ctx.n(160, 2000), ctx.n(30, 300), ctx.n(80, 1000), collect)
+    malformed_cases(ctx, collect)
+    history_check(ctx)
     compare_with_model(ctx, collect)
 
 
